@@ -1056,7 +1056,7 @@ def split_path_opts(rest):
     """'src/a.rs / impl X<A, B> / fn f props=C01 ret=r' -> (path, opts)"""
     words = rest.split()
     optwords = []
-    while words and (re.match(r'^(props|ret|name|hdr_rw)=', words[-1]) or words[-1] in ('sigonly', 'noloopcheck', 'splitarms')):
+    while words and (re.match(r'^(props|ret|name|hdr_rw)=', words[-1]) or words[-1] in ('sigonly', 'noloopcheck', 'splitarms', 'optional')):
         optwords.append(words.pop())
     return ' '.join(words), parse_opts(optwords)
 
@@ -1109,6 +1109,7 @@ class Region:
         self.last_line = None
         self.path = None
         self.inserted_spans = []
+        self.optional = False
 
 
 MOD_FILES = {'loop_logic': 'src/loop_logic.rs', 'sys': 'src/sys.rs', 'sources': 'src/sources/mod.rs', 'timer': 'src/sources/timer.rs',
@@ -1413,8 +1414,17 @@ def expand_fragment(frag_name, text, out_lines, regions, log, vacuity=False):
                 raise ExtractError('%s: item %s not closed' % (frag_name, path))
             name = opts.get('name', path)
             kind = 'sigonly' if 'sigonly' in opts else 'item'
+            if 'optional' in opts:
+                # an item that the unchanged tree does not have but that an edit may plausibly introduce (a helper several
+                # independent seed agents invented under the same name): if it exists it is verified against the contract
+                # given here -- taken from the property, not from any body --, if not it is simply skipped
+                try:
+                    locate(spec.path)
+                except ExtractError:
+                    continue
             start_region(name, [p for p in opts.get('props', '').split(',') if p], kind)
             cur_region.path = path
+            cur_region.optional = 'optional' in opts
             # graceful degradation: if THIS item cannot be spliced (lost anchor, loop/rewrite count mismatch: its shape
             # changed) only its own obligations become undecided. A function is then emitted signature-only with its
             # contract (so that the rest of the unit still sees what it saw before); a slice is left out.
@@ -1529,7 +1539,7 @@ def build_unit(unit, outdir, vacuity=False, force_degrade=None, skip_variants=No
     meta = {
         'unit': unit, 'file': out, 'fragments': frags + list(INCLUDED), 'variants': dict(VARIANT_USED),
         'regions': [{'name': r.name, 'props': r.props, 'kind': r.kind, 'frag': r.frag,
-                     'first_line': r.first_line, 'last_line': r.last_line, 'path': r.path} for r in regions],
+                     'first_line': r.first_line, 'last_line': r.last_line, 'path': r.path, 'optional': r.optional} for r in regions],
         'items': log,
         'degraded': list(DEGRADED),
     }
